@@ -53,10 +53,10 @@ fn run_snap(c: &SnapCase, st: &mut Stats) -> CaseResult {
 	}
 	let mut r = match m.restore(&json) {
 		Ok(r) => r,
-		Err(e) => fail!(&format!("C13:{name}:restore"), "{name} {:?} after {k} steps: its own serialization is rejected: {e}; {}", c.m.params, &json[..json.len().min(300)]),
+		Err(e) => fail!(&format!("C13:{name}:restore"), "{name} {:?} after {k} steps: its own serialization is rejected: {e}; {}", c.m.params, engine::clip(&json, 300)),
 	};
 	let json2 = r.to_json().map_err(|e| Failure::new(format!("C13:{name}:serialize"), e))?;
-	ensure!(json2 == json, &format!("C13:{name}:reserialize"), "{name}: restored instance serializes differently:\n{}\n{}", &json[..json.len().min(300)], &json2[..json2.len().min(300)]);
+	ensure!(json2 == json, &format!("C13:{name}:reserialize"), "{name}: restored instance serializes differently:\n{}\n{}", engine::clip(&json, 300), engine::clip(&json2, 300));
 	let mut changed = false;
 	let mut prev: Option<Vec<u64>> = None;
 	for (t, x) in xs[k..].iter().enumerate() {
@@ -78,7 +78,7 @@ fn run_snap(c: &SnapCase, st: &mut Stats) -> CaseResult {
 		st.nontrivial(engine::fnv(format!("{:?}{}", c.m.params, k).as_bytes()) ^ engine::fnv(format!("{:?}", &xs[..xs.len().min(12)]).as_bytes()));
 	}
 	st.count("steps", xs.len() as u64);
-	st.sample(name, || serde_json::json!({"kind": name, "params": c.m.params, "snapshot_after": k, "stream_len": xs.len(), "snapshot": &json[..json.len().min(200)]}));
+	st.sample(name, || serde_json::json!({"kind": name, "params": c.m.params, "snapshot_after": k, "stream_len": xs.len(), "snapshot": engine::clip(&json, 200)}));
 	Ok(())
 }
 
@@ -200,7 +200,7 @@ fn window_json_strategy() -> impl Strategy<Value = WinJson> {
 }
 
 pub fn run_window_json(c: &WinJson, st: &mut Stats) -> CaseResult {
-	let parsed = engine::catch(|| serde_json::from_str::<Window<u32>>(&c.text)).map_err(|p| Failure::new(format!("C13:window-json-{}", p.sig()), format!("deserializing {} panicked at {}: {}", &c.text[..c.text.len().min(120)], p.loc, p.msg)))?;
+	let parsed = engine::catch(|| serde_json::from_str::<Window<u32>>(&c.text)).map_err(|p| Failure::new(format!("C13:window-json-{}", p.sig()), format!("deserializing {} panicked at {}: {}", engine::clip(&c.text, 120), p.loc, p.msg)))?;
 	// the generic view of the same text (keeps the last duplicate; only used when there are none)
 	let v: Option<Value> = serde_json::from_str(&c.text).ok();
 	let dup = c.text.matches("\"index\"").count() > 1 || c.text.matches("\"buf\"").count() > 1;
@@ -237,7 +237,7 @@ pub fn run_window_json(c: &WinJson, st: &mut Stats) -> CaseResult {
 		}
 	}
 	st.nontrivial(engine::fnv(c.text.as_bytes()));
-	st.sample(if c.text.len() < 80 { "window-json/short" } else { "window-json/long" }, || serde_json::json!(&c.text[..c.text.len().min(160)]));
+	st.sample(if c.text.len() < 80 { "window-json/short" } else { "window-json/long" }, || serde_json::json!(engine::clip(&c.text, 160)));
 	Ok(())
 }
 
